@@ -40,6 +40,19 @@ func runRealRoots(c *hlib.Ctx, n int) {
 				quads[0] = [2]float64{0.5, 0.25}
 				roots = append(roots, roots[0]+1)
 			}
+		case 3: // a*(x^2 - s^2), alone or times one more linear factor: the (deflated) quadratic has a linear
+			// coefficient that is exactly (or, after deflation, nearly) zero
+			sr := pick(c, 1.0, 2, 0.5, 1.5, 3)
+			roots = []float64{-sr, sr}
+			if c.Rng.Intn(2) == 0 {
+				r0 := float64(pick(c, -6, -5, 5, 6, 4, -4))
+				if r0 < 0 {
+					roots = []float64{r0, -sr, sr}
+				} else {
+					roots = []float64{-sr, sr, r0}
+				}
+			}
+			c.Stat("c17.realroots.symmetric_quadratic", 1)
 		case 2: // symmetric pair, even degree
 			r := pick(c, 1.25, 1.5, 0.75, 2)
 			roots = []float64{-r, r}
@@ -82,7 +95,15 @@ func runRealRoots(c *hlib.Ctx, n int) {
 		args := join(md.num(lead), itoa(len(roots)), md.nums(roots...), itoa(len(quads)), md.nums(qa...))
 		emit(c, md, "realroots", args, func() string {
 			render := func(p numerical.Polynomial) string {
-				rs := append(numerical.Polynomial{}, p...).RealRoots()
+				// the SAME polynomial value is used twice: the root finder (deflation by divideRoot, recursion on
+				// sub-slices) must leave it alone and answer the same again
+				keep := preserved(c, "Polynomial.RealRoots", p)
+				rs := p.RealRoots()
+				again := p.RealRoots()
+				keep()
+				if fmt.Sprint(again) != fmt.Sprint(rs) {
+					c.PropFail("RealRoots/second-call-differs", fmt.Sprintf("p=%v: first %v, then %v", p, rs, again))
+				}
 				sort.Float64s(rs)
 				for j, r := range rs {
 					rs[j] = math.Round(r*65536) / 65536
